@@ -190,8 +190,7 @@ def _install(sim):
         U.time = shim
     else:
         U.time = sim.clock
-    concurrent.futures.ThreadPoolExecutor = simexec.SimThreadPool
-    concurrent.futures.ProcessPoolExecutor = simexec.SimProcessPool
+    simexec.install_executors(B)
     env.stream = simsched.RecordingStream(sim)
     env.real_stdout = sys.stdout
     sys.stdout = env.stream
